@@ -26,7 +26,7 @@ Theorem C08_begin_block_mint : forall cx s s' d,
     (forall po, pool s = Some po -> exists po', pool s' = Some po' /\ po_reward po' = po_reward po + m /\
         po_storage po' = po_storage po /\ po_pledged po' = po_pledged po) /\
     pledges s' = pledges s.
-Proof. exact begin_block_mint. Qed.
+Proof. first [exact begin_block_mint | apply begin_block_mint]. Qed.
 Print Assumptions C08_begin_block_mint.
 
 Theorem C08_begin_block_phi : forall cx s s' d, Inv_pool s -> step cx s OBeginBlock = (s', OutBlock BOk d) ->
@@ -34,55 +34,55 @@ Theorem C08_begin_block_phi : forall cx s s' d, Inv_pool s -> step cx s OBeginBl
   phi s <= phi s' /\ phi s' - phi s <= dec_of_int (supply s' - supply s) /\
   (forall k p po po', pool s = Some po -> pool s' = Some po' -> pledges s !! k = Some p ->
       claimable (po_accreward po') p - claimable (po_accreward po) p = (po_accreward po' - po_accreward po) * pl_total p).
-Proof. exact begin_block_phi. Qed.
+Proof. first [exact begin_block_phi | apply begin_block_phi]. Qed.
 Print Assumptions C08_begin_block_phi.
 
 Theorem C08_claim_phi : forall cx s s' d c, Settled s ->
   step cx s (OClaimReward c) = (s', OutTx COk d) -> (exists po, pool s = Some po) ->
   exists coins, 0 <= coins /\ phi s' = phi s - dec_of_int coins /\
     (forall k, k <> c -> pledges s' !! k = pledges s !! k) /\ pool s' = pool s.
-Proof. exact claim_phi. Qed.
+Proof. first [exact claim_phi | apply claim_phi]. Qed.
 Print Assumptions C08_claim_phi.
 
 Theorem C08_other_phi : forall cx s op, Settled s -> op <> OBeginBlock -> (forall c, op <> OClaimReward c) ->
   phi (fst (step cx s op)) = phi s.
-Proof. exact other_phi. Qed.
+Proof. first [exact other_phi | apply other_phi]. Qed.
 Print Assumptions C08_other_phi.
 
 Theorem C08_other_supply : forall cx s op, op <> OBeginBlock -> supply (fst (step cx s op)) = supply s.
-Proof. exact other_supply. Qed.
+Proof. first [exact other_supply | apply other_supply]. Qed.
 Print Assumptions C08_other_supply.
 
 Theorem C08_step_settled : forall cx s op, Settled s -> (op = OBeginBlock -> Nonneg s) -> Settled (fst (step cx s op)).
-Proof. exact step_settled. Qed.
+Proof. first [exact step_settled | apply step_settled]. Qed.
 Print Assumptions C08_step_settled.
 
 Theorem C08_claim_pays : forall cx s s' d c, step cx s (OClaimReward c) = (s', OutTx COk d) ->
   exists p, pledges s !! c = Some p /\
     (forall a, a <> c -> a <> macc NODE -> a <> macc MARKET -> bal s' !! a = bal s !! a).
-Proof. exact claim_pays. Qed.
+Proof. first [exact claim_pays | apply claim_pays]. Qed.
 Print Assumptions C08_claim_pays.
 
 Theorem C08_no_overclaim : forall tr s, Inv_pool s -> Settled s -> nonneg_at_blocks tr s ->
   phi (run tr s) + claimed_in tr s <= phi s + dec_of_int (minted_in tr s).
-Proof. exact no_overclaim. Qed.
+Proof. first [exact no_overclaim | apply no_overclaim]. Qed.
 Print Assumptions C08_no_overclaim.
 
 Theorem C08_other_phi_refuted : exists cx s op,
   op <> OBeginBlock /\ (forall c, op <> OClaimReward c) /\ phi (fst (step cx s op)) <> phi s.
-Proof. exact other_phi_refuted. Qed.
+Proof. first [exact other_phi_refuted | apply other_phi_refuted]. Qed.
 Print Assumptions C08_other_phi_refuted.
 
 Theorem C08_claim_phi_refuted : exists cx s s' d c,
   step cx s (OClaimReward c) = (s', OutTx COk d) /\ (exists po, pool s = Some po) /\
   forall coins, 0 <= coins -> phi s' <> phi s - dec_of_int coins.
-Proof. exact claim_phi_refuted. Qed.
+Proof. first [exact claim_phi_refuted | apply claim_phi_refuted]. Qed.
 Print Assumptions C08_claim_phi_refuted.
 
 Theorem C08_begin_block_mint_refuted : exists cx s s' d,
   step cx s OBeginBlock = (s', OutBlock BOk d) /\
   ~ exists m, 0 <= m /\ supply s' = supply s + m /\ m <= np_reward (nparams s).
-Proof. exact begin_block_mint_refuted. Qed.
+Proof. first [exact begin_block_mint_refuted | apply begin_block_mint_refuted]. Qed.
 Print Assumptions C08_begin_block_mint_refuted.
 
 (* sharper - a block mints at most the subsidy of the CURRENT halving age (BlockReward >> age) *)
@@ -91,7 +91,7 @@ Theorem C08_begin_block_mint_age : forall cx s s' d,
   (forall po, pool s = Some po -> po_reward po < TOTAL_REWARD) ->
   step cx s OBeginBlock = (s', OutBlock BOk d) ->
   0 <= supply s' - supply s <= subsidy_cap s.
-Proof. exact begin_block_mint_age. Qed.
+Proof. first [exact begin_block_mint_age | apply begin_block_mint_age]. Qed.
 Print Assumptions C08_begin_block_mint_age.
 
 (* and that subsidy never grows again *)
@@ -101,11 +101,11 @@ Theorem C08_begin_block_cap_decreases : forall cx s s' d,
   (forall po', pool s' = Some po' -> po_reward po' < TOTAL_REWARD) ->
   step cx s OBeginBlock = (s', OutBlock BOk d) ->
   subsidy_cap s' <= subsidy_cap s.
-Proof. exact begin_block_cap_decreases. Qed.
+Proof. first [exact begin_block_cap_decreases | apply begin_block_cap_decreases]. Qed.
 Print Assumptions C08_begin_block_cap_decreases.
 
 Theorem C08_subsidy_cap_age1 :
   let po := mkPool 10 200000000000000 0 0 0 0 10 0 in
   halving_age po = 1 /\ Z.shiftr 1000 (halving_age po) = 500.
-Proof. exact subsidy_cap_age1. Qed.
+Proof. first [exact subsidy_cap_age1 | apply subsidy_cap_age1]. Qed.
 Print Assumptions C08_subsidy_cap_age1.
